@@ -1912,12 +1912,15 @@ def serialize_graph_into(
         # Make sure the tensor's name is the same as the value's name
         value.const_value.name = value.name
         serialize_tensor_into(graph_proto.initializer.add(), from_=value.const_value)
+    # Membership in *this* graph's outputs, not ``Value.is_graph_output()``: for a GraphView the flag
+    # describes the underlying graph, not the view being serialized.
+    graph_outputs = frozenset(from_.outputs)
     for node in from_:
         serialize_node_into(
             graph_proto.node.add(), from_=node, model_ir_version=model_ir_version
         )
         for node_output in node.outputs:
-            if node_output.is_graph_output():
+            if node_output in graph_outputs:
                 # No need to serialize info for these outputs because they are handled as graph outputs
                 continue
             _maybe_add_quantization_annotation(graph_proto, node_output)
